@@ -22,6 +22,7 @@
 //	{"op":"await_verdict","id":I}       wait until that call returned
 //	{"op":"sleep","ms":N}               (random recordings only) real-time pause
 //	{"op":"until","ms":N}               wait until N ms after the start of the scenario
+//	{"op":"fault","point":P,"ms":K}     the next K calls of verifhook.Fault(P) return an error
 //	{"op":"shutdown"}                   cancel the context-manager context
 //	{"op":"end"}                        remove all gates, wait for the outstanding calls up to their deadline
 //
@@ -398,6 +399,7 @@ var pointEvent = map[string]string{
 	"q.after_slot_check": "slot", "q.enqueued": "enq", "q.loop_tick": "tick", "q.loop_pop": "pick",
 	"q.quota": "quota", "q.requeued": "requeue", "q.stopall": "drain", "q.stopall_done": "stopall_done",
 	"q.before_remove": "before_remove", "q.removed": "removed",
+	"mq.enqueue": "mq_enqueue", "mq.enqueued": "mq_enqueued",
 }
 
 func child(scPath, tracePath string) {
@@ -419,7 +421,7 @@ func child(scPath, tracePath string) {
 	context_manager.Get().WithContext(ctx)
 
 	verifhook.SetSink(func(point string, kv ...any) {
-		if !strings.HasPrefix(point, "q.") {
+		if !strings.HasPrefix(point, "q.") && !strings.HasPrefix(point, "mq.") {
 			return
 		}
 		m := map[string]any{}
@@ -427,6 +429,9 @@ func child(scPath, tracePath string) {
 			m[fmt.Sprint(kv[i])] = kv[i+1]
 		}
 		id, _ := m["id"].(string)
+		if it, ok := m["item"].(string); ok {
+			id = it // yield points inside the shared queue name the queued item
+		}
 		ev := vh.Ev{}
 		if id != "" {
 			ev["id"] = id
@@ -448,14 +453,34 @@ func child(scPath, tracePath string) {
 			}
 			ev["ev"] = name
 		}
-		tr.add(ev, true)
 		gatePoint := point
 		if point == "q.before_signal" {
 			gatePoint = point + "." + fmt.Sprint(m["result"])
 		}
+		if point == "q.loop_pop" {
+			// `pick` must be stamped before the pop; when the loop is held here it is stamped as it is let go, so that
+			// requests queued while the loop was held count as queued before the choice began
+			gs.reach(gatePoint, id)
+			tr.add(ev, true)
+			return
+		}
+		tr.add(ev, true)
 		gs.reach(gatePoint, id)
 	})
 
+	// fault injection: {"op":"fault","point":P,"ms":k} makes the next k calls of verifhook.Fault(P) fail
+	var fmu sync.Mutex
+	faults := map[string]int{}
+	verifhook.SetFault(func(point string) error {
+		fmu.Lock()
+		defer fmu.Unlock()
+		if faults[point] > 0 {
+			faults[point]--
+			tr.add(vh.Ev{"ev": "fault", "point": point}, true)
+			return fmt.Errorf("injected fault at %s", point)
+		}
+		return nil
+	})
 	dir, err := os.MkdirTemp(".", "engine-")
 	if err != nil {
 		vh.Die("mkdtemp: %v", err)
@@ -583,6 +608,10 @@ func child(scPath, tracePath string) {
 			case <-time.After(awaitTimeout):
 				abort(k, "timeout awaiting verdict "+st.ID)
 			}
+		case "fault":
+			fmu.Lock()
+			faults[st.Point] += st.Ms
+			fmu.Unlock()
 		case "sleep":
 			time.Sleep(time.Duration(st.Ms) * time.Millisecond)
 		case "until":
